@@ -389,7 +389,7 @@ Proof.
   intros Hv Hs Hvs Hq. unfold lex_string.
   assert (E0 : skipn sigil rest = nth sigil rest 0%N :: skipn (S sigil) rest) by (apply skipn_nth_cons; exact Hs).
   remember (nth sigil rest 0%N) as q eqn:Hq0. remember (skipn (S sigil) rest) as t0 eqn:Ht0.
-  rewrite E0. cbn [nth].
+  rewrite E0. change (nth 0 (q :: t0) 0%N) with q.
   assert (Hqa : (q < 128)%N) by lia.
   assert (Hr0len : length (q :: t0) = length rest - sigil) by (rewrite <- E0; now rewrite skipn_length).
   set (r0 := q :: t0) in *.
